@@ -169,6 +169,24 @@ theorem Inv.setBuf {cfg : Cfg} {s : St} (h : Inv cfg s) (b : Bytes) : Inv cfg { 
     calledPhase := h.calledPhase, gated := h.gated, mwOnce := h.mwOnce, mwPhase := h.mwPhase,
     waitingNone := h.waitingNone }
 
+theorem Pre.setReq {cfg : Cfg} {s : St} (p : Pre cfg s) (r : Option Bytes) : Pre cfg { s with req := r } :=
+  { shape := p.shape, sentDone := p.sentDone, tlost := p.tlost, tsent := p.tsent, once := p.once,
+    gated := p.gated, mwOnce := p.mwOnce }
+
+theorem Pre.setNow {cfg : Cfg} {s : St} (p : Pre cfg s) (n : Nat) : Pre cfg { s with now := n } :=
+  { shape := p.shape, sentDone := p.sentDone, tlost := p.tlost, tsent := p.tsent, once := p.once,
+    gated := p.gated, mwOnce := p.mwOnce }
+
+theorem Inv.setReq {cfg : Cfg} {s : St} (h : Inv cfg s) (r : Option Bytes) : Inv cfg { s with req := r } :=
+  { shape := h.shape, sentDone := h.sentDone, timerIff := h.timerIff, once := h.once,
+    calledPhase := h.calledPhase, gated := h.gated, mwOnce := h.mwOnce, mwPhase := h.mwPhase,
+    waitingNone := h.waitingNone }
+
+theorem Inv.setNow {cfg : Cfg} {s : St} (h : Inv cfg s) (n : Nat) : Inv cfg { s with now := n } :=
+  { shape := h.shape, sentDone := h.sentDone, timerIff := h.timerIff, once := h.once,
+    calledPhase := h.calledPhase, gated := h.gated, mwOnce := h.mwOnce, mwPhase := h.mwPhase,
+    waitingNone := h.waitingNone }
+
 theorem Inv.notSent {cfg : Cfg} {s : St} (h : Inv cfg s) (hp : s.phase ≠ .done) : s.sent = false := by
   cases hs : s.sent with
   | false => rfl
@@ -179,7 +197,7 @@ theorem onLine_inv {cfg : Cfg} {s : St} (h : Inv cfg s) (hph : s.phase = .awaitL
   have hw : waiting s.phase := Or.inl hph
   have hn := h.waitingNone hw
   have hs : s.sent = false := h.notSent (by simp [hph])
-  have p := (h.pre).setBuf rest
+  have p := ((h.pre).setBuf rest).setReq (some line)
   unfold onLine
   simp only
   split
@@ -199,7 +217,7 @@ theorem onLine_inv {cfg : Cfg} {s : St} (h : Inv cfg s) (hph : s.phase = .awaitL
             have hti := h.timerIff
             have hmo := h.mwOnce
             constructor <;> simp_all [waiting]
-    · have p2 : Pre cfg { s with buf := rest, timer := false } :=
+    · have p2 : Pre cfg { s with buf := rest, req := some line, timer := false } :=
         { shape := p.shape, sentDone := p.sentDone, tlost := by simp, tsent := by simp, once := p.once,
           gated := p.gated, mwOnce := p.mwOnce }
       split
@@ -239,6 +257,11 @@ theorem step_inv (cfg : Cfg) (s : St) (ev : Ev) (h : Inv cfg s) : Inv cfg (step 
     split
     · exact respondFixed_inv h.pre _ _
     · exact h
+  | tick dt =>
+    simp only [step]
+    split
+    · exact respondFixed_inv (h.pre.setNow _) _ _
+    · exact h.setNow _
   | lost =>
     simp only [step]
     have hsh := h.shape
